@@ -44,8 +44,8 @@ macro "ent_tac" : tactic =>
     obtain ⟨key, refs, value, err, wlocked, viaCtor, ctor, failing, waiters, lsWaiters,
       holders, deadRefs, del2, del3, destructed, ctorRuns, refReaders⟩ := E
     simp only [EntInv]
-    cases err <;> cases wlocked <;> cases viaCtor <;> cases m <;> simp <;> intros <;> (try simp_all) 
-    all_goals omega))
+    cases err <;> cases wlocked <;> cases viaCtor <;> cases m <;> simp <;> intros <;>
+      first | omega | (subst_vars; simp_all; done) | (subst_vars; simp_all; omega)))
 
 theorem ent_holder_mapped (h : EntInv m E) (hh : 0 < E.holders) :
     m = true ∧ E.err = false ∧ E.wlocked = false ∧ 1 ≤ E.refs := by
@@ -90,7 +90,7 @@ theorem ent_lnRead_err (h : EntInv m E) (hh : 0 < E.waiters) (he : E.err = true)
     EntInv m { E with waiters := E.waiters - 1, deadRefs := E.deadRefs + 1 } := by
   ent_tac
 
-theorem ent_lnRead_ok (h : EntInv m E) (hh : 0 < E.waiters) (he : E.err = false) :
+theorem ent_lnRead_ok (h : EntInv m E) (hh : 0 < E.waiters) (he : E.err = false) (hw : E.wlocked = false) :
     EntInv m { E with waiters := E.waiters - 1, holders := E.holders + 1 } := by
   ent_tac
 
@@ -126,5 +126,126 @@ theorem ent_refReaders (n : Nat) (h : EntInv m E) : EntInv m { E with refReaders
   ent_tac
 
 end entry
+
+/-! ### frame lemmas: how the helpers of the model act on `Inv` -/
+
+theorem inPool_updEnt (s : G) (e : Nat) (f : Entry → Entry)
+    (hk : (f (s.ent e)).key = (s.ent e).key) (i : Nat) :
+    inPool (updEnt s e f) i = inPool s i := by
+  unfold inPool updEnt
+  by_cases h : i = e
+  · subst h; simp [hk]
+  · simp [h]
+
+theorem inv_upd {s : G} {e : Nat} {f : Entry → Entry} (h : Inv s)
+    (hk : (f (s.ent e)).key = (s.ent e).key)
+    (hE : e < s.next → EntInv (inPool s e) (f (s.ent e))) : Inv (updEnt s e f) := by
+  constructor
+  · intro i hi
+    rw [inPool_updEnt s e f hk i]
+    by_cases hie : i = e
+    · subst hie
+      have : (updEnt s i f).ent i = f (s.ent i) := by simp [updEnt]
+      rw [this]; exact hE hi
+    · have : (updEnt s e f).ent i = s.ent i := by simp [updEnt, hie]
+      rw [this]; exact h.ent i hi
+  · intro k i hp
+    have hp' : s.pool k = some i := hp
+    obtain ⟨h1, h2⟩ := h.pool k i hp'
+    refine ⟨h1, ?_⟩
+    by_cases hie : i = e
+    · subst hie
+      have : (updEnt s i f).ent i = f (s.ent i) := by simp [updEnt]
+      rw [this, hk]; exact h2
+    · have : (updEnt s e f).ent i = s.ent i := by simp [updEnt, hie]
+      rw [this]; exact h2
+
+theorem inv_bump {s : G} (h : Inv s) : Inv (bumpVal s) := ⟨h.ent, h.pool⟩
+
+theorem inv_setRangers {s : G} (n : Nat) (h : Inv s) : Inv (setRangers s n) := ⟨h.ent, h.pool⟩
+
+/-- a fresh entry stored under a key that was absent -/
+theorem inv_alloc {s : G} {k : Nat} {E : Entry} (h : Inv s) (hn : s.pool k = none)
+    (hk : E.key = k) (hE : EntInv true E) : Inv (alloc s k E) := by
+  constructor
+  · intro i hi
+    have hi' : i < s.next + 1 := hi
+    by_cases hin : i = s.next
+    · subst hin
+      have h1 : (alloc s k E).ent s.next = E := by simp [alloc]
+      have h2 : inPool (alloc s k E) s.next = true := by simp [inPool, alloc, hk]
+      rw [h1, h2]; exact hE
+    · have hlt : i < s.next := by omega
+      have h1 : (alloc s k E).ent i = s.ent i := by simp [alloc, hin]
+      have h2 : inPool (alloc s k E) i = inPool s i := by
+        unfold inPool
+        rw [h1]
+        by_cases hki : (s.ent i).key = k
+        · have : s.pool (s.ent i).key = none := by rw [hki]; exact hn
+          rw [this]
+          have hne : s.next ≠ i := by omega
+          simp [alloc, hki, hne]
+        · simp [alloc, hki]
+      rw [h1, h2]; exact h.ent i hlt
+  · intro k' i hp
+    by_cases hkk : k' = k
+    · subst hkk
+      have : i = s.next := by simpa [alloc] using hp.symm
+      subst this
+      exact ⟨Nat.lt_succ_self _, by simp [alloc, hk]⟩
+    · have hp' : s.pool k' = some i := by simpa [alloc, hkk] using hp
+      obtain ⟨h1, h2⟩ := h.pool k' i hp'
+      have hne : i ≠ s.next := by omega
+      exact ⟨Nat.lt_succ_of_lt h1, by simp [alloc, hne, h2]⟩
+
+/-- the entry stored under `k` is removed from the map and updated in the same region -/
+theorem inv_unmapUpd {s : G} {k e : Nat} {f : Entry → Entry} (h : Inv s) (hp : s.pool k = some e)
+    (hk : (f (s.ent e)).key = (s.ent e).key)
+    (hE : EntInv false (f (s.ent e))) : Inv (updEnt (setPool s k none) e f) := by
+  obtain ⟨he, hke⟩ := h.pool k e hp
+  constructor
+  · intro i hi
+    have hi' : i < s.next := hi
+    by_cases hie : i = e
+    · subst hie
+      have h1 : (updEnt (setPool s k none) i f).ent i = f (s.ent i) := by simp [updEnt, setPool]
+      have h2 : inPool (updEnt (setPool s k none) i f) i = false := by
+        simp [inPool, updEnt, setPool, hk, hke]
+      rw [h1, h2]; exact hE
+    · have h1 : (updEnt (setPool s k none) e f).ent i = s.ent i := by simp [updEnt, setPool, hie]
+      have h2 : inPool (updEnt (setPool s k none) e f) i = inPool s i := by
+        unfold inPool
+        rw [h1]
+        by_cases hki : (s.ent i).key = k
+        · have : s.pool (s.ent i).key = some e := by rw [hki]; exact hp
+          rw [this]
+          have hne : e ≠ i := fun h => hie h.symm
+          simp [updEnt, setPool, hki, hne]
+        · simp [updEnt, setPool, hki]
+      rw [h1, h2]; exact h.ent i hi'
+  · intro k' i hp'
+    by_cases hkk : k' = k
+    · subst hkk; simp [updEnt, setPool] at hp'
+    · have hp'' : s.pool k' = some i := by simpa [updEnt, setPool, hkk] using hp'
+      obtain ⟨h1, h2⟩ := h.pool k' i hp''
+      refine ⟨h1, ?_⟩
+      by_cases hie : i = e
+      · subst hie
+        have : (updEnt (setPool s k none) i f).ent i = f (s.ent i) := by simp [updEnt, setPool]
+        rw [this, hk]; exact h2
+      · have : (updEnt (setPool s k none) e f).ent i = s.ent i := by simp [updEnt, setPool, hie]
+        rw [this]; exact h2
+
+theorem inPool_of_pool {s : G} (h : Inv s) {k e : Nat} (hp : s.pool k = some e) : inPool s e = true := by
+  obtain ⟨_, hk⟩ := h.pool k e hp
+  simp [inPool, hk, hp]
+
+theorem pool_of_inPool {s : G} {e : Nat} (h : inPool s e = true) : s.pool (s.ent e).key = some e := by
+  simpa [inPool] using h
+
+theorem inv_init : Inv G.init := by
+  constructor
+  · intro e he; exact absurd he (Nat.not_lt_zero _)
+  · intro k e h; simp [G.init] at h
 
 end CaddyModel.C04
